@@ -156,6 +156,9 @@ def discharge(S, ob, leaf_types=None, invariants=None):
                 one_push = step is not None and step[0] == "pushed" and step[1] == v
                 if empty and one_push and cap is not None and n is not None and cap == n:
                     return True, "one push per iteration of a loop over %s elements into an empty vector of capacity %s" % (n, cap), set()
+        # guarded push: `if !v.is_full() { v.push(x) }` with the vector unchanged between test and push (same term)
+        if bdd.implies(pc, bdd.NOT(bdd.var(("is_full", v)))):
+            return True, "push guarded by !is_full() on the same vector value", set()
         if v[0] == "arrayvec" and v[1][0] == "array" and isinstance(v[2] if len(v) > 2 else None, int) and len(v[1][1]) < v[2]:
             return True, "literal contents below capacity", set()
         return False, "push into a fixed-capacity vector that may be full", set()
